@@ -963,6 +963,11 @@ class AsyncIteratorQueue(IteratorQueue[_ValueT], AsyncIterableQueue[_ValueT]):
         await self.async_put(value)
       except StopAsyncIteration as e:
         return self._stop_enqueue(*e.args)
+      except asyncio.CancelledError:
+        # A cancelled enqueuer is no longer running: un-registers it, otherwise
+        # the consumers wait for it forever.
+        self._stop_enqueue()
+        raise
       except Exception as e:  # pylint: disable=broad-exception-caught
         e.add_note(f'Exception during async enqueueing {self.name}')
         logging.exception('chainable: %s', f'{self.name} enqueue failed.')
